@@ -290,7 +290,10 @@ Lemma redeem_loop_spec lc ec app from w rl : from <> ESMA -> NoDup (map rkey rl)
     (forall d, debt_of rs' d = debt_of rs d) /\
     map kc rs' = map kc rs /\
     (forall r, In r rl -> exists r', find_rec rs' (ar_app r) (ar_asset r) = Some r' /\ ar_amt r' = ar_amt r - pay_of lc ec s app w r /\ kc r' = kc r) /\
-    (forall a x, ~ In (a, x) (map rkey rl) -> find_rec rs' a x = find_rec rs a x).
+    (forall a x, ~ In (a, x) (map rkey rl) -> find_rec rs' a x = find_rec rs a x) /\
+    (forall r, In r rl -> exists dec, ec_dec ec (ar_asset r) = Some dec /\
+       (ar_coll r && negb (ar_amt r =? 0) = true -> exists rate, rate_of lc s app (ar_asset r) = Some rate /\
+          payout w (ar_share r) rate dec = Some (pay_of lc ec s app w r))).
 Proof.
   intros Hfe. induction rl as [|r rl IH]; intros Hnd s rs pd s' rs' pd' HF Hnn H; cbn [redeem_loop] in H.
   - injection H as <- <- <-. exists (bal s). split; [symmetry; apply set_bal_eta|]. cbn [map In wsum].
@@ -305,7 +308,10 @@ Proof.
       (forall d, b1 from d = bal s from d + (if ar_asset r =? d then pay_of lc ec s app w r else 0)) /\
       (forall d, 0 <= b1 ESMA d) /\ 0 <= pay_of lc ec s app w r /\
       (forall d, pd1 d = pd d + (if ar_asset r =? d then pay_of lc ec s app w r else 0)) /\
-      rs1 = put_rec rs (with_amt r (ar_amt r - pay_of lc ec s app w r))).
+      rs1 = put_rec rs (with_amt r (ar_amt r - pay_of lc ec s app w r)) /\
+      (exists dec, ec_dec ec (ar_asset r) = Some dec /\
+         (ar_coll r && negb (ar_amt r =? 0) = true -> exists rate, rate_of lc s app (ar_asset r) = Some rate /\
+            payout w (ar_share r) rate dec = Some (pay_of lc ec s app w r)))).
     { unfold redeem_one in R1. unfold pay_of. destruct (ec_dec ec (ar_asset r)) as [dec|] eqn:Ed; [|discriminate R1].
       destruct (ar_coll r && negb (ar_amt r =? 0)) eqn:Cc.
       - destruct (rate_of lc s app (ar_asset r)) as [rate|] eqn:Er; [|discriminate R1].
@@ -320,13 +326,15 @@ Proof.
           pose proof (Hnn d). destruct (Z.eqb_spec d (ar_asset r)) as [->|]; [|lia]. specialize (Hnn (ar_asset r)). lia.
         + exact Hq.
         + intros d. unfold add1. rewrite (Z.eqb_sym d). reflexivity.
+        + exists dec. split; [reflexivity|]. intros _. exists rate. split; [reflexivity|exact Ep].
       - injection R1 as <- <- <-. exists (bal s). split; [symmetry; apply set_bal_eta|]. repeat split; intros; try reflexivity; try lia.
         + destruct (ar_asset r =? d); lia.
         + destruct (ar_asset r =? d); lia.
         + apply Hnn.
         + destruct (ar_asset r =? d); lia.
-        + rewrite Z.sub_0_r. f_equal. unfold with_amt. destruct r; reflexivity. }
-    destruct K as (b1 & -> & K1 & K2 & K3 & K4 & K5 & K6 & ->).
+        + rewrite Z.sub_0_r. f_equal. unfold with_amt. destruct r; reflexivity.
+        + exists dec. split; [reflexivity|]. intros Ht. discriminate Ht. }
+    destruct K as (b1 & -> & K1 & K2 & K3 & K4 & K5 & K6 & -> & K7).
     set (q := pay_of lc ec s app w r) in *.
     set (r1 := with_amt r (ar_amt r - q)).
     assert (Hk : ar_app r1 = ar_app r /\ ar_asset r1 = ar_asset r /\ ar_coll r1 = ar_coll r) by (unfold r1, with_amt; cbn; auto). destruct Hk as (Hk1 & Hk2 & Hk3).
@@ -336,7 +344,7 @@ Proof.
       unfold rkey at 1. rewrite <- Eq. change (ar_app r2, ar_asset r2) with (rkey r2). apply in_map. exact H2. }
     assert (Hnn1 : forall d, 0 <= bal (set_bal s b1) ESMA d) by (intros d; ssimpl; apply K4).
     destruct (IH Hnd' (set_bal s b1) (put_rec rs r1) pd1 s' rs' pd' HF1 Hnn1 H) as
-      (b' & -> & B1 & B2 & B3 & B4 & B5 & B6 & B7 & B8 & B9 & B10 & B11).
+      (b' & -> & B1 & B2 & B3 & B4 & B5 & B6 & B7 & B8 & B9 & B10 & B11 & B12).
     assert (Hpay : forall x, pay_of lc ec (set_bal s b1) app w x = pay_of lc ec s app w x) by reflexivity.
     exists b'. split; [reflexivity|]. ssimpl. repeat split.
     + intros a d Ha1 Ha2. rewrite B1, K1 by assumption. reflexivity.
@@ -359,6 +367,7 @@ Proof.
       * destruct (B10 x Hx) as (x' & Fx & Ax & Kx). exists x'. split; [exact Fx|]. split; [rewrite Ax, Hpay; reflexivity|exact Kx].
     + intros a x Hni. rewrite B11 by (intros Hin; apply Hni; right; exact Hin). apply find_put_other. unfold rkey. rewrite Hk1, Hk2.
       intros Eq. apply Hni. left. symmetry. exact Eq.
+    + intros x [<-|Hx]; [exact K7|]. exact (B12 x Hx).
 Qed.
 
 Lemma nodup_filter_keys (P : arec -> bool) l : NoDup (map rkey l) -> NoDup (map rkey (filter P l)).
@@ -399,6 +408,9 @@ Record redeem_eff (lc : lcfg) (ec : ecfg) (e e' : estate) (from app denom amt : 
   re_recs : forall r0, In r0 (app_recs (recs e) app) -> rkey r0 <> (app, denom) ->
             exists r', find_rec (recs e') (ar_app r0) (ar_asset r0) = Some r' /\ ar_amt r' = ar_amt r0 - pay_of lc ec (vs (el e)) app w r0;
   re_rec_d : exists r', find_rec (recs e') app denom = Some r' /\ ar_amt r' = ar_amt r - amt;
+  re_pay : forall r0, In r0 (app_recs (recs e) app) -> exists dec0, ec_dec ec (ar_asset r0) = Some dec0 /\
+           (ar_coll r0 && negb (ar_amt r0 =? 0) = true -> exists rate, rate_of lc (vs (el e)) app (ar_asset r0) = Some rate /\
+              payout w (ar_share r0) rate dec0 = Some (pay_of lc ec (vs (el e)) app w r0));
   re_cool_app : cool e' app <> None;
   re_cool : forall a, a <> app -> cool e' a = cool e a;
   re_rest : eflags e' = eflags e /\ epool e' = epool e /\ eret e' = add1 (eret e) denom amt /\ gburn e' = gburn e
@@ -425,7 +437,7 @@ Proof.
   { intros r0 Hr0. apply find_rec_in; [exact Hnd|]. unfold app_recs in Hr0. apply filter_In in Hr0. tauto. }
   assert (Hnn2 : forall d, 0 <= bal s2 ESMA d) by (intros d; rewrite Hb2; apply Hnn).
   destruct (redeem_loop_spec lc ec app from w _ Hfe Hndl s2 (recs e) (epaid e) s3 rs pd HFl Hnn2 E2) as
-    (b' & -> & L1 & L2 & L3 & L4 & L5 & L6 & L7 & L8 & L9 & L10 & L11).
+    (b' & -> & L1 & L2 & L3 & L4 & L5 & L6 & L7 & L8 & L9 & L10 & L11 & L12).
   assert (Hrl : In r (app_recs (recs e) app)) by (unfold app_recs; apply filter_In; split; [exact Hrin|rewrite Hra; apply Z.eqb_refl]).
   destruct (L10 r Hrl) as (rd & Frd & Ard & Krd). rewrite Hra, Hrx in Frd.
   assert (Hp0 : pay_of lc ec s2 app w r = 0) by (unfold pay_of; rewrite Cc; reflexivity). rewrite Hp0 in Ard.
@@ -460,6 +472,8 @@ Proof.
     + rewrite find_put_other; [exact F'|]. unfold rkey in *. rewrite Hk1, Hk2. exact Hne.
     + rewrite A'. rewrite (pay_of_snap lc ec _ s2 app w r0 Hsn). reflexivity.
   - exists r1. split; [rewrite <- Hk1, <- Hk2; apply find_put_same|reflexivity].
+  - intros r0 Hr0. destruct (L12 r0 Hr0) as (dec0 & Ed & P). exists dec0. split; [exact Ed|]. intros Ht. destruct (P Ht) as (rate & Er & Ep).
+    exists rate. unfold rate_of in *. rewrite <- Hsn. split; [exact Er|]. rewrite Ep. rewrite (pay_of_snap lc ec _ s2 app w r0 Hsn). reflexivity.
   - unfold upd1. rewrite Z.eqb_refl. discriminate.
   - intros a Ha. unfold upd1. destruct (Z.eqb_spec a app); [contradiction|reflexivity].
   - repeat split.
